@@ -6,6 +6,8 @@ IO.CALLER-OWNED  close() on a caller-supplied handle is unreachable in write()/t
 IO.NO-ESCAPE     an owned handle is never stored into an attribute, global or container
 """
 import ast
+
+from sa.astutil import ordn
 from collections import deque
 
 from sa.cfg import build_cfg
@@ -474,7 +476,7 @@ def _site_role(fi, call):
         if k.arg == "mode" and isinstance(k.value, ast.Constant):
             mode = str(k.value.value)
     calls = [n for n in walk_shallow(fi.node) if isinstance(n, ast.Call) and ast.unparse(n.func) == ast.unparse(call.func)]
-    calls.sort(key=lambda c: (c.lineno, c.col_offset))
+    calls.sort(key=lambda c: (ordn(c), c.col_offset))
     return "%s%d" % (mode or "h", calls.index(call) + 1)
 
 
